@@ -275,6 +275,7 @@ var (
 	c9TypTextI           = reflect.TypeFor[C9TextI]()
 	c9TypTree            = reflect.TypeFor[C9Tree]()
 	c9TypEmbH, c9TypEmbP = reflect.TypeFor[C9EmbHidden](), reflect.TypeFor[C9EmbHiddenPtr]()
+	c9TypEmbTVPtr        = reflect.TypeFor[C9EmbTVPtr]()
 )
 
 func (g c9Gen) fill(a, b reflect.Value, depth int) {
@@ -336,6 +337,14 @@ func (g c9Gen) fill(a, b reflect.Value, depth int) {
 		if depth <= 0 {
 			return
 		}
+	case c9TypEmbTVPtr:
+		// the promoted value-receiver MarshalText would be called through a nil embedded pointer (a panic in the
+		// Go-generated wrapper, in both packages): always give the embedded pointer a target
+		s := g.pickS(c9TextTexts)
+		x := g.r.IntN(3)
+		a.Set(reflect.ValueOf(C9EmbTVPtr{&C9TV{s}, x}))
+		b.Set(reflect.ValueOf(C9EmbTVPtr{&C9TV{s}, x}))
+		return
 	}
 	switch ta.Kind() {
 	case reflect.Bool:
@@ -452,11 +461,11 @@ func (g c9Gen) fillIface(a, b reflect.Value, depth int) {
 		return
 	case c9TypMarshalerI:
 		s := g.pickS(c9MarshalerTexts)
-		switch g.r.IntN(5) {
+		// NOT generated: a nil *C9MP inside the interface — finding F8 (v1.Marshal panics; fixed probe in c09Probes)
+		switch 1 + g.r.IntN(4) {
 		case 0:
 		case 1:
-			a.Set(reflect.ValueOf((*C9MP)(nil)))
-			b.Set(reflect.ValueOf((*C9MP)(nil)))
+			// nil interface
 		case 2:
 			a.Set(reflect.ValueOf(&C9MP{s}))
 			b.Set(reflect.ValueOf(&C9MP{s}))
@@ -470,11 +479,11 @@ func (g c9Gen) fillIface(a, b reflect.Value, depth int) {
 		return
 	case c9TypTextI:
 		s := g.pickS(c9TextTexts)
-		switch g.r.IntN(5) {
+		// NOT generated: a nil *C9TP inside the interface — finding F8 (v1.Marshal panics; fixed probe in c09Probes)
+		switch 1 + g.r.IntN(4) {
 		case 0:
 		case 1:
-			a.Set(reflect.ValueOf((*C9TP)(nil)))
-			b.Set(reflect.ValueOf((*C9TP)(nil)))
+			// nil interface
 		case 2:
 			a.Set(reflect.ValueOf(&C9TP{s}))
 			b.Set(reflect.ValueOf(&C9TP{s}))
@@ -742,6 +751,7 @@ func c9Short(s string) string { return trunc(s, 400) }
 func c9MarshalBoth(c *Ctx, w *c09Watch, slot int, op string, in []byte, f1 func() ([]byte, error), f2 func() ([]byte, error)) (b1, b2 []byte, e1, e2 error, ok bool) {
 	if p := guard(func() { b2, e2 = f2() }); p != nil {
 		c.Hit("typed/classic-panic")
+		c9Dbg("classic-panic", map[string]any{"op": op, "type": string(in), "panic": fmt.Sprint(p)})
 		// the classic package panicked; v1 must not be held to a result here, but record what it does
 		guard(func() { f1() })
 		return nil, nil, nil, nil, false
@@ -954,6 +964,7 @@ func c9RunUnmarshal(c *Ctx, w *c09Watch, slot int, t c9T, in []byte, populated b
 	o.before = c9D(ta.Elem())
 	if p := guard(func() { o.e2 = stdjson.Unmarshal(in, tb.Interface()) }); p != nil {
 		c.Hit("typed/classic-panic")
+		c9Dbg("classic-panic", map[string]any{"op": "Unmarshal", "type": c9TypeName(t.a), "input": string(in), "panic": fmt.Sprint(p)})
 		o.skipped = true
 		return
 	}
@@ -986,6 +997,31 @@ var c9Attributions = []struct {
 			return nil
 		}
 		return bytes.ReplaceAll(in, []byte(`"null"`), []byte(`"nuII"`))
+	}},
+	// F9/F10: `,string` fields and string contents that are not JSON numbers: v1 accepts "+1", ".5", "Inf", "NaN" for
+	// int/float fields where the classic package demands a leading '-' or digit; the classic package stores any
+	// text with such a first byte into a Number unvalidated ("1,5", "0x10", "1e") where v1 reports an error.
+	{"stringtag-non-json-number", func(t c9T, d string, in []byte) []byte {
+		if !strings.Contains(d, `string\"`) {
+			return nil
+		}
+		out := append([]byte(nil), in...)
+		spans := c9Spans(in)
+		for k := len(spans) - 1; k >= 0; k-- {
+			sp := spans[k]
+			if in[sp[0]] != '"' || sp[1]-sp[0] < 3 {
+				continue
+			}
+			body := in[sp[0]+1 : sp[1]-1]
+			if !strings.ContainsRune("+-.0123456789IN", rune(body[0])) {
+				continue
+			}
+			if (body[0] == '-' || body[0] >= '0' && body[0] <= '9') && stdjson.Valid(body) {
+				continue
+			}
+			out = append(append(append([]byte(nil), out[:sp[0]]...), `"7"`...), out[sp[1]:]...)
+		}
+		return out
 	}},
 	// F7: a member name that matches two fields only case-insensitively: the classic package takes the first field
 	// in depth-first (index) order, v1 the first in breadth-first order.  The fix renames exactly those names.
@@ -1140,4 +1176,80 @@ func c09Cycles(c *Ctx) {
 			c.Violate("marshal-success-mismatch", "v1.Marshal", []byte("cycle:"+name), d)
 		}
 	}
+}
+
+// ---------------------------------------------------------------------------------------------
+// Fixed probes: minimal repros of the findings whose trigger is kept OUT of the random generator (because it sits
+// in the type, where no input rewrite can remove it).  Each probe compares the two packages exactly like the random
+// checks and reports under the finding's own kind, so it falls silent once /repo is repaired.
+
+func init() { c09Parts = append(c09Parts, c09Part{"P (probes)", c09Probes}) }
+
+func c09Probes(c *Ctx) {
+	w := newC09Watch(c, 1)
+	defer w.stop.Store(true)
+	marshal := func(suffix, name string, v any) {
+		var b1, b2 []byte
+		var e1, e2 error
+		if p := guard(func() { b2, e2 = stdjson.Marshal(v) }); p != nil {
+			c.Note("probe %s: classic panicked: %v", name, p)
+			return
+		}
+		c.Case("probe:"+name, true)
+		c.Hit("probe/" + suffix)
+		d := map[string]any{"probe": name}
+		if p := guard(func() { b1, e1 = jsonv1.Marshal(v) }); p != nil {
+			d["panic"], d["classic"], d["classic_err"] = fmt.Sprint(p), string(b2), fmt.Sprint(e2)
+			c.Violate("panic["+suffix+"]", "v1.Marshal", []byte(name), d)
+			return
+		}
+		if (e1 == nil) != (e2 == nil) || !bytes.Equal(b1, b2) {
+			d["v1"], d["classic"], d["v1_err"], d["classic_err"] = string(b1), string(b2), fmt.Sprint(e1), fmt.Sprint(e2)
+			c.Violate("marshal-bytes-mismatch["+suffix+"]", "v1.Marshal", []byte(name), d)
+		}
+	}
+	unmarshal := func(suffix, name, in string, mk func() any) {
+		ta, tb := mk(), mk()
+		var e1, e2 error
+		if p := guard(func() { e2 = stdjson.Unmarshal([]byte(in), tb) }); p != nil {
+			c.Note("probe %s: classic panicked: %v", name, p)
+			return
+		}
+		c.Case("probe:"+name, true)
+		c.Hit("probe/" + suffix)
+		if w.call(0, "v1.Unmarshal", []byte(name), func() { e1 = jsonv1.Unmarshal([]byte(in), ta) }) {
+			return
+		}
+		a, b := c9D(reflect.ValueOf(ta).Elem()), c9D(reflect.ValueOf(tb).Elem())
+		d := map[string]any{"probe": name, "input": in, "v1_err": fmt.Sprint(e1), "classic_err": fmt.Sprint(e2), "v1_after": a, "classic_after": b}
+		switch {
+		case (e1 == nil) != (e2 == nil):
+			c.Violate("unmarshal-success-mismatch["+suffix+"]", "v1.Unmarshal", []byte(name), d)
+		case e2 == nil && a != b:
+			c.Violate("unmarshal-value-mismatch["+suffix+"]", "v1.Unmarshal", []byte(name), d)
+		}
+	}
+
+	// F3: map key of string kind with MarshalText — the classic package uses the string itself (encode.go resolveKeyName)
+	marshal("string-kind-key-with-marshaltext", "Marshal(map[C9TStr]int{k:1})", map[C9TStr]int{"k": 1})
+	unmarshal("string-kind-key-with-marshaltext", "Unmarshal({\"k\":1}, *map[C9TStr]int)", `{"k":1}`, func() any { return new(map[C9TStr]int) })
+	// F5: `,string` on a scalar-kind type with methods
+	type f5 struct {
+		F C9TInt `json:",string"`
+	}
+	marshal("stringtag-on-method-type", "Marshal(struct{F C9TInt `json:\",string\"`}{5})", f5{5})
+	unmarshal("stringtag-on-method-type", "Unmarshal({\"F\":\"#5\"}, *struct{F C9TInt `json:\",string\"`})", `{"F":"#5"}`, func() any { return new(f5) })
+	type f5b struct {
+		F C9MInt `json:",string"`
+	}
+	marshal("stringtag-on-method-type", "Marshal(struct{F C9MInt `json:\",string\"`}{5})", f5b{5})
+	unmarshal("stringtag-on-method-type", "Unmarshal({\"F\":{}}, *struct{F C9MInt `json:\",string\"`})", `{"F":{}}`, func() any { return new(f5b) })
+	// F6: pointer-keyed map
+	marshal("pointer-key-map", "Marshal(map[*C9TP]int{&{k}:1})", map[*C9TP]int{{"k"}: 1})
+	unmarshal("pointer-key-map", "Unmarshal({}, *map[*C9TP]int)", `{}`, func() any { return new(map[*C9TP]int) })
+	unmarshal("pointer-key-map", "Unmarshal({\"k\":1}, *map[*C9TP]int)", `{"k":1}`, func() any { return new(map[*C9TP]int) })
+	// F8: nil pointer inside a user-defined interface type that has a marshal method
+	marshal("nil-pointer-in-marshaler-interface", "Marshal(struct{M C9MarshalerI}{(*C9MP)(nil)})", struct{ M C9MarshalerI }{(*C9MP)(nil)})
+	marshal("nil-pointer-in-marshaler-interface", "Marshal(struct{T C9TextI}{(*C9TP)(nil)})", struct{ T C9TextI }{(*C9TP)(nil)})
+	marshal("nil-pointer-in-marshaler-interface", "Marshal([]C9MarshalerI{(*C9MP)(nil)})", []C9MarshalerI{(*C9MP)(nil)})
 }
